@@ -133,7 +133,7 @@ pub struct CreateOut {
     pub skipped_sites: Vec<String>,
 }
 
-fn site_builder(cfg: &Config) -> site::reader::Builder {
+pub fn site_builder(cfg: &Config) -> site::reader::Builder {
     let samples = cfg.sel.as_ref().map(|list| {
         site::reader::builder::Samples::List(
             list.iter()
